@@ -1,0 +1,212 @@
+//go:build verif
+
+package tbtc
+
+import (
+	"context"
+	"crypto/ecdsa"
+	"encoding/hex"
+	"math/big"
+	"time"
+
+	"github.com/keep-network/keep-core/pkg/bitcoin"
+	"github.com/keep-network/keep-core/pkg/protocol/group"
+	"github.com/keep-network/keep-core/pkg/tecdsa"
+)
+
+// Thin exported wrappers used by the /verif harness (property C46). They build
+// the wallet actions with the production constructors, read the timing fields
+// the constructors set, and run the production signing / heartbeat steps with
+// executors that only report what they were called with.
+
+// VerifC46ActionTimings are the timing fields of a wallet action as set by its
+// production constructor.
+type VerifC46ActionTimings struct {
+	StartBlock          uint64
+	ExpiryBlock         uint64
+	SafetyMarginBlocks  uint64
+	BroadcastTimeout    time.Duration
+	BroadcastCheckDelay time.Duration
+	ValidityBlocks      uint64
+}
+
+// VerifC46NewActionTimings constructs the given transaction-based wallet
+// action for the given start and expiry block and returns its timing fields
+// together with the ValidityBlocks of its proposal type.
+func VerifC46NewActionTimings(
+	action WalletActionType,
+	startBlock uint64,
+	expiryBlock uint64,
+) (VerifC46ActionTimings, bool) {
+	switch action {
+	case ActionDepositSweep:
+		p := &DepositSweepProposal{}
+		a := newDepositSweepAction(
+			logger.With(), nil, nil, wallet{}, nil, p, startBlock, expiryBlock, nil,
+		)
+		return VerifC46ActionTimings{
+			a.proposalProcessingStartBlock, a.proposalExpiryBlock,
+			a.signingTimeoutSafetyMarginBlocks, a.broadcastTimeout,
+			a.broadcastCheckDelay, p.ValidityBlocks(),
+		}, true
+	case ActionRedemption:
+		p := &RedemptionProposal{}
+		a := newRedemptionAction(
+			logger.With(), nil, nil, wallet{}, nil, p, startBlock, expiryBlock, nil,
+		)
+		return VerifC46ActionTimings{
+			a.proposalProcessingStartBlock, a.proposalExpiryBlock,
+			a.signingTimeoutSafetyMarginBlocks, a.broadcastTimeout,
+			a.broadcastCheckDelay, p.ValidityBlocks(),
+		}, true
+	case ActionMovingFunds:
+		p := &MovingFundsProposal{}
+		a := newMovingFundsAction(
+			logger.With(), nil, nil, wallet{}, nil, p, startBlock, expiryBlock, nil,
+		)
+		return VerifC46ActionTimings{
+			a.proposalProcessingStartBlock, a.proposalExpiryBlock,
+			a.signingTimeoutSafetyMarginBlocks, a.broadcastTimeout,
+			a.broadcastCheckDelay, p.ValidityBlocks(),
+		}, true
+	case ActionMovedFundsSweep:
+		p := &MovedFundsSweepProposal{}
+		a := newMovedFundsSweepAction(
+			logger.With(), nil, nil, wallet{}, nil, p, startBlock, expiryBlock, nil,
+		)
+		return VerifC46ActionTimings{
+			a.proposalProcessingStartBlock, a.proposalExpiryBlock,
+			a.signingTimeoutSafetyMarginBlocks, a.broadcastTimeout,
+			a.broadcastCheckDelay, p.ValidityBlocks(),
+		}, true
+	}
+	return VerifC46ActionTimings{}, false
+}
+
+// VerifC46SigningLoopBlocks returns signingAttemptsLimit, the value of
+// signingAttemptMaximumBlocks() and the product computed as in
+// signingExecutor.sign.
+func VerifC46SigningLoopBlocks() (uint, uint, uint64) {
+	se := newSigningExecutor(nil, nil, nil, nil, nil, nil, nil, signingAttemptsLimit)
+	return se.signingAttemptsLimit, signingAttemptMaximumBlocks(),
+		uint64(se.signingAttemptsLimit * signingAttemptMaximumBlocks())
+}
+
+// VerifC46WindowEndBlock returns coordinationWindow.endBlock, the block the
+// wallet actions start at (processCoordinationResult).
+func VerifC46WindowEndBlock(coordinationBlock uint64) uint64 {
+	return newCoordinationWindow(coordinationBlock).endBlock()
+}
+
+// VerifC46HeartbeatValidityBlocks returns HeartbeatProposal.ValidityBlocks.
+func VerifC46HeartbeatValidityBlocks() uint64 {
+	return (&HeartbeatProposal{}).ValidityBlocks()
+}
+
+type verifC46BatchSigner struct {
+	report func(ctx context.Context, startBlock uint64) error
+}
+
+func (s *verifC46BatchSigner) signBatch(
+	ctx context.Context,
+	messages []*big.Int,
+	startBlock uint64,
+) ([]*tecdsa.Signature, error) {
+	return nil, s.report(ctx, startBlock)
+}
+
+// VerifC46SignTransaction runs walletTransactionExecutor.signTransaction on an
+// empty transaction with a signing executor that reports the context and
+// start block it receives and returns report's error.
+func VerifC46SignTransaction(
+	waitForBlockFn func(context.Context, uint64) error,
+	signingStartBlock uint64,
+	signingTimeoutBlock uint64,
+	report func(ctx context.Context, startBlock uint64) error,
+) error {
+	wte := newWalletTransactionExecutor(
+		nil, wallet{}, &verifC46BatchSigner{report}, waitForBlockFn,
+	)
+	_, err := wte.signTransaction(
+		logger,
+		bitcoin.NewTransactionBuilder(nil),
+		signingStartBlock,
+		signingTimeoutBlock,
+	)
+	return err
+}
+
+type verifC46HeartbeatSigner struct {
+	activeMembers int
+	report        func(ctx context.Context, startBlock uint64) error
+}
+
+func (s *verifC46HeartbeatSigner) sign(
+	ctx context.Context,
+	message *big.Int,
+	startBlock uint64,
+) (*tecdsa.Signature, *signingActivityReport, uint64, error) {
+	if err := s.report(ctx, startBlock); err != nil {
+		return nil, nil, 0, err
+	}
+	active := make([]group.MemberIndex, s.activeMembers)
+	for i := range active {
+		active[i] = group.MemberIndex(i + 1)
+	}
+	return &tecdsa.Signature{R: big.NewInt(1), S: big.NewInt(1)},
+		&signingActivityReport{
+			activeMembers:   active,
+			inactiveMembers: []group.MemberIndex{100},
+		}, startBlock, nil
+}
+
+type verifC46ClaimExecutor struct {
+	report func(ctx context.Context) error
+}
+
+func (c *verifC46ClaimExecutor) claimInactivity(
+	ctx context.Context,
+	inactiveMembersIndexes []group.MemberIndex,
+	heartbeatFailed bool,
+	sessionID *big.Int,
+) error {
+	return c.report(ctx)
+}
+
+// VerifC46RunHeartbeat runs heartbeatAction.execute built by the production
+// constructor; the signing and inactivity claim executors only report the
+// contexts / start block they are called with. priorFailures is the number of
+// consecutive failures already counted for the wallet.
+func VerifC46RunHeartbeat(
+	chain Chain,
+	walletPublicKey *ecdsa.PublicKey,
+	startBlock uint64,
+	expiryBlock uint64,
+	waitForBlockFn func(context.Context, uint64) error,
+	priorFailures uint,
+	activeMembers int,
+	reportSign func(ctx context.Context, startBlock uint64) error,
+	reportClaim func(ctx context.Context) error,
+) error {
+	counter := newHeartbeatFailureCounter()
+	walletPublicKeyBytes, err := marshalPublicKey(walletPublicKey)
+	if err != nil {
+		return err
+	}
+	for i := uint(0); i < priorFailures; i++ {
+		counter.increment(hex.EncodeToString(walletPublicKeyBytes))
+	}
+	action := newHeartbeatAction(
+		logger,
+		chain,
+		wallet{publicKey: walletPublicKey},
+		&verifC46HeartbeatSigner{activeMembers, reportSign},
+		&HeartbeatProposal{Message: [16]byte{0xff, 0xff, 0xff, 0xff, 0xff, 0xff, 0xff, 0xff}},
+		counter,
+		&verifC46ClaimExecutor{reportClaim},
+		startBlock,
+		expiryBlock,
+		waitForBlockFn,
+	)
+	return action.execute()
+}
